@@ -259,6 +259,16 @@ def run_worker(pid: str, tier: str, seed: int, shard: int, nshards: int, deadlin
     except Exception:  # noqa: BLE001
         pass
 
+    cov = None
+    if os.environ.get("VERIF_COV"):     # dev: line/branch coverage of xitorch reached by this check (tools/cov_report.py)
+        import coverage
+        os.makedirs(os.environ["VERIF_COV"], exist_ok=True)
+        cov = coverage.Coverage(data_file=os.path.join(os.environ["VERIF_COV"], "%s.%d.cov" % (pid, shard)), branch=True,
+                                source=[os.path.join(os.environ.get("XITORCH_REPO", "/repo"), "xitorch")], config_file=False)
+        cov.start()
+        import atexit
+        atexit.register(lambda: (cov.stop(), cov.save()))
+
     mod = importlib.import_module("pbt.props." + pid.lower())
     sites = getattr(mod, "SITES", {})
     known = load_known(pid)
